@@ -133,6 +133,49 @@ fn meets(w: &mut ZWorld, a: Animal, n: u8, b: Animal) {
     w.calls.push(format!("meets({},{n},{})", s(&a), s(&b)));
 }
 
+#[then(expr = "anything {} goes")]
+fn anon(w: &mut ZWorld, s: String) {
+    w.calls.push(format!("anon({s})"));
+}
+
+#[given(expr = "I eat/drink {int} thing(s)")]
+fn eatdrink(w: &mut ZWorld, n: u8) {
+    w.calls.push(format!("eatdrink({n})"));
+}
+
+#[when(regex = r"^astep (\d+)$")]
+async fn astep(
+    w: &mut ZWorld,
+    n: u16,
+    #[step] s: &Step,
+) -> Result<(), String> {
+    futures::future::ready(()).await;
+    w.calls.push(format!("astep({n};{})", s.value));
+    Ok(())
+}
+
+#[then("1+1 = 2 | [x] ^$ {int}")]
+fn metas(w: &mut ZWorld) {
+    w.calls.push("metas()".into());
+}
+
+#[given(regex = "^twice$")]
+#[then(regex = r"^twice (\d+)$")]
+fn twice(w: &mut ZWorld, args: &[String]) {
+    w.calls.push(format!("twice({})", args.join(",")));
+}
+
+#[given(regex = "^okres$")]
+fn okres(w: &mut ZWorld) -> Result<(), String> {
+    w.calls.push("okres()".into());
+    Ok(())
+}
+
+#[when(expr = "calc \\(x\\) {word}")]
+async fn calc(w: &mut ZWorld, v: String) {
+    w.calls.push(format!("calc({v})"));
+}
+
 /// Looks up and executes one (keyword, text) on a fresh world.
 pub fn dispatch(l: &Value) -> Value {
     let coll = ZWorld::collection();
